@@ -456,6 +456,7 @@ def run(tier):
         dsp = dispatch.run_writes(chk, tier)
         fails += dsp['fails']
         disagreements += dsp['disagreements']
+        broken += dsp['broken']
         chk.coverage['dispatch'] = dsp['stats']
         stats['dispatch_puts'] = dsp['evaluations']
         seen |= {('dispatch', k) for k in range(dsp['stats'].get('classes', 0))}
